@@ -76,9 +76,9 @@ deriving DecidableEq, Repr, Inhabited
 
 /-- One resolved `layer.Layer` instance. -/
 structure Layer where
-  id : LayerId
-  digest : LDigest
-  toc : Toc
+  id : Nat       -- LayerId
+  digest : Nat   -- LDigest
+  toc : Nat      -- Toc
 deriving DecidableEq, Repr, Inhabited
 
 /-- `LayerManager` (+ the parts of `refPool` it drives). -/
@@ -86,10 +86,10 @@ structure St where
   layer : Map (Map Layer) := []       -- r.layer, keyed by ref and TOC digest
   refcounter : Map (Map Int) := []    -- r.refcounter, keyed by ref and TOC digest
   memo : Map (Map Outcome) := []      -- r.resolveLayerCache, keyed by ref and LAYER digest
-  done : List LayerId := []           -- instances on which release called Done()
-  next : LayerId := 0                 -- number of instances cached so far
+  done : List Nat := []               -- instances (LayerId) on which release called Done()
+  next : Nat := 0                     -- number of instances cached so far (next LayerId)
   pool : Map Int := []                -- refPool.refcounter[ref].count
-  disk : List Ref := []               -- refs whose manifest and config are in the pool directory
+  disk : List Nat := []               -- refs whose manifest and config are in the pool directory
 deriving Repr, Inhabited
 
 def init : St := {}
